@@ -78,3 +78,99 @@ def mutate(line, rng, mnemonics):
                            line.replace("@", "", 1), line + "]", line.replace("[", "[]", 1),
                            line.replace(":", ":R1:", 1), line.replace("[", "[:", 1), line.replace("@", "@R", 1)]), kind
     return line, "same"
+
+
+# ---- object histories: an instruction printed, modified in place, printed again -------------
+
+_alias_cache = {}
+
+
+def setter_aliases(c):
+    """{field index: [names that assign this operand in place]}: the dataclass field itself and
+    every writable property of the class (line, qreg, angle_num, ...) that is an alias of it.
+    Found by identity on an instance built from pairwise distinct operand objects."""
+    if c in _alias_cache:
+        return _alias_cache[c]
+    from netqasm.lang import operand as op
+    from netqasm.lang.encoding import RegisterName
+    fs = H.T.operand_fields(c)
+    shape = H.shape_of(c)
+    inst = c(**{f.name: H.T.zero_operand(k, op, RegisterName) for f, k in zip(fs, shape)})
+    out = {j: [f.name] for j, f in enumerate(fs)}
+    for name in dir(c):
+        attr = None
+        for klass in c.__mro__:
+            if name in klass.__dict__:
+                attr = klass.__dict__[name]
+                break
+        if isinstance(attr, property) and attr.fset is not None:
+            try:
+                val = getattr(inst, name)
+            except Exception:
+                continue
+            for j, f in enumerate(fs):
+                if getattr(inst, f.name) is val:
+                    out[j].append(name)
+    _alias_cache[c] = out
+    return out
+
+
+def gen_instr_history(inst, rng, n_steps):
+    """[(json update, action)] for an instruction object: observations and in-place operand updates
+    with in-range values, through the field or one of its property setters"""
+    c = type(inst)
+    shape = H.shape_of(c)
+    al = setter_aliases(c)
+    steps = []
+    if rng.random() < 0.85:
+        steps.append(({"u": "obs"}, ("obs",)))
+    for _ in range(n_steps):
+        if shape and rng.random() < 0.7:
+            k = rng.randrange(len(shape))
+            o = rng.choice(H.values_for(shape[k], rng, 2))
+            via = rng.choice(al[k])
+            steps.append(({"u": "set", "k": k, "o": H.operand_to_json(o)}, ("set", via, o)))
+        else:
+            steps.append(({"u": "obs"}, ("obs",)))
+    return steps
+
+
+def apply_instr(inst, action, step):
+    if action[0] == "obs":
+        return str(inst) if step % 2 == 0 else inst.debug_str
+    setattr(inst, action[1], action[2])
+
+
+def own_text_ok(flavour_name, inst):
+    """model-free oracle at one moment: the text printed for the object parses, with the flavour,
+    to an instruction equal to the object as it is now. None if fine."""
+    text = str(inst)
+    rp, sub = real_parse(flavour_name, [text])
+    if sub is None or list(sub.instructions) != [inst]:
+        return {"printed": text, "current": H.instr_to_json(inst), "parsed": rp}
+    return None
+
+
+# a vanilla program with branches across gates that the NV transpiler expands
+def branchy_source(rng):
+    gates = ["h Q0", "x Q0", "y Q0", "z Q0", "s Q0", "t Q0", "k Q0", "h Q1", "x Q1", "cnot Q0 Q1",
+             "cnot Q1 Q0", "cphase Q0 Q1", "rot_x Q0 3 4", "rot_z Q1 1 2", "rot_y Q0 5 3"]
+    classical = ["add R0 R0 R1", "sub R2 R0 R1", "set R3 7", "set C1 -5"]
+    lines = ["set Q0 0", "set Q1 1", "set R0 0", "set R1 3", "set R2 1", "qalloc Q0", "init Q0", "qalloc Q1",
+             "init Q1"]
+    n_labels = rng.randrange(1, 4)
+    labels = ["L%d" % k for k in range(n_labels)]
+    body = []
+    for _ in range(rng.randrange(3, 12)):
+        r = rng.random()
+        if r < 0.5:
+            body.append(rng.choice(gates))
+        elif r < 0.7:
+            body.append(rng.choice(classical))
+        else:
+            lab = rng.choice(labels)
+            body.append(rng.choice(["beq R0 R1 %s", "bne R0 R2 %s", "blt R0 R1 %s", "bge R2 R1 %s",
+                                    "bez R0 %s", "bnz R2 %s", "jmp %s"]) % lab)
+    for lab in labels:
+        body.insert(rng.randrange(len(body) + 1), lab + ":")
+    return lines + body + ["qfree Q0", "qfree Q1", "ret_reg R0"]
